@@ -83,6 +83,25 @@ class ObligationSpec:
                 bad.append('O1: apply_change does not apply the change')
             elif not sw or min(sw) > min(ap):
                 bad.append('O1: apply_change applies the inputs without first requesting cancellation (synthetic write) - running queries are not cancelled, the writer blocks behind them')
+            # O6: what reaches Change::apply is the Change the caller handed in - nothing else looks at it or edits it on the way (a filter between the
+            # two makes the snapshots taken afterwards answer for other inputs than the workspace has)
+            the_change = args[1] if len(args) > 1 else None
+            tr = [t for t in it.trace if isinstance(t[0], str)]
+            api = [i for i, t in enumerate(tr) if t[0].split('(')[0].endswith('Change::apply')]
+            if api and the_change is not None:
+                def same(v):
+                    # the Change itself or one of its parts (field projections of the under-constrained argument)
+                    x = models.deref(v); n_ = 0
+                    while x is not None and n_ < 8:
+                        if x is the_change:
+                            return True
+                        x = getattr(x, 'parent', None); n_ += 1
+                    return False
+                if not any(same(v) for v in tr[api[0]][1]):
+                    bad.append('O6: apply_change applies another Change than the one it was given')
+                touched = [t[0].split('(')[0] for t in tr[:api[0]] if any(same(v) for v in t[1]) and not re.search(r'drop|fmt|Debug|trace|tracing', t[0])]
+                if touched:
+                    bad.append('O6: before the change is applied it is handed to %s: a Change that is filtered or edited on the way makes later snapshots answer for other inputs than the workspace has' % '::'.join(re.sub(r'<[^<>]*>', '', re.sub(r'<[^<>]*>', '', touched[0])).replace('::::', '::').strip(':').split('::')[-2:]))
         elif self.fn == 'request_cancellation':
             if not any(n.endswith('synthetic_write') for n in names):
                 bad.append('O1: request_cancellation performs no synthetic write')
